@@ -48,6 +48,7 @@ inductive JVal where
   | str (s : List Nat)
   | arr (items : List JVal)
   | obj (members : List (List Nat × JVal))
+  | ptr (target : JVal)          -- pointer-to-value member (never produced by the parser)
   deriving Repr, Inhabited
 
 def isWs (c : Nat) : Bool := c == 32 || c == 10 || c == 9 || c == 13
